@@ -61,6 +61,9 @@ func c11Base(r *rand.Rand, kind int) c11Codec {
 		name := "aes"
 		if kind == 3 {
 			ttl = time.Duration(5+r.IntN(120)) * time.Second
+			if r.IntN(5) == 0 { // very long-lived sessions, up to the idiomatic "never" of the largest duration
+				ttl = pick(r, []time.Duration{1000 * time.Hour, 100 * 365 * 24 * time.Hour, 250 * 365 * 24 * time.Hour, time.Duration(1<<63 - 1)})
+			}
 			name = "aes-ttl"
 		}
 		v, err := stickycookie.NewAESValue(c11Key(r, klen), ttl)
@@ -302,7 +305,7 @@ func c11Sessions(c *Ctx) {
 				}
 			case 4:
 				if codec.ttl > 0 {
-					advance(time.Duration(r.Int64N(int64(codec.ttl / 4))))
+					advance(time.Duration(r.Int64N(int64(min(codec.ttl/4, 2000*time.Hour)))))
 					script = append(script, "advance<ttl")
 				}
 			}
@@ -340,7 +343,7 @@ func c11Sessions(c *Ctx) {
 			}
 			return o
 		}
-		if codec.ttl > 0 && r.IntN(2) == 0 {
+		if codec.ttl > 0 && codec.ttl < 200*365*24*time.Hour && r.IntN(2) == 0 {
 			advance(codec.ttl + 2*time.Second)
 			script = append(script, "advance>ttl")
 			negs = append(negs, neg{"expired", v0, true})
@@ -359,6 +362,22 @@ func c11Sessions(c *Ctx) {
 				}
 			}
 			negs = append(negs, neg{"stale-removed-server", v0, true})
+		}
+		if kind == "rb" && r.IntN(3) == 0 {
+			// a server whose registration failed (the rebalancer could not create its meter) is not a pool member
+			ghost := c11GenURL(r, 60)
+			if _, dup := model[urlKey(ghost)]; !dup && urlKey(ghost) != s0 {
+				t.failMeter.Store(true)
+				err := t.upsert(ghost, roundrobin.Weight(1))
+				t.failMeter.Store(false)
+				if err == nil {
+					c.Violation("admin/failed-upsert-succeeded", "UpsertServer returned nil although the meter factory failed", desc())
+					return
+				}
+				script = append(script, "failed-add")
+				negs = append(negs, neg{"server-whose-registration-failed", codec.v.Get(ghost), true})
+				c.Count("failed_registrations", 1)
+			}
 		}
 		negs = append(negs, mangle()...)
 		// filter negatives that are valid by definition for raw-containing codecs
